@@ -45,7 +45,16 @@ func runJob(j *job, timeout time.Duration) {
 	ctx, cancel := context.WithTimeout(context.Background(), timeout)
 	defer cancel()
 	cmd := exec.CommandContext(ctx, j.bin, j.args...)
-	cmd.Env = append(os.Environ(), raceEnv, "GOMAXPROCS=4", "GOTRACEBACK=single")
+	mp := "GOMAXPROCS=4"
+	if j.kind == "oracle" {
+		// the oracle processes differ from the workers in everything a correct
+		// library must not depend on
+		mp = []string{"GOMAXPROCS=1", "GOMAXPROCS=16", "GOMAXPROCS=3"}[j.from%3]
+	}
+	cmd.Env = append(os.Environ(), raceEnv, mp, "GOTRACEBACK=single")
+	if j.kind == "oracle" {
+		cmd.Env = append(cmd.Env, "GOGC=25", "TZ=Pacific/Kiritimati", "LANG=tr_TR.UTF-8")
+	}
 	ef, err := os.Create(j.errf)
 	if err != nil {
 		j.code = -1
@@ -540,7 +549,7 @@ func (o *orch) oraclePhase(c counts) []found {
 	}
 	var jobs []*job
 	for g := 0; g < groups; g++ {
-		j := &job{name: fmt.Sprintf("oracle-%d", g), kind: "oracle", bin: o.plain,
+		j := &job{name: fmt.Sprintf("oracle-%d", g), kind: "oracle", bin: o.plain, from: uint64(g),
 			out: filepath.Join(o.dir, fmt.Sprintf("oracle-%d.json", g)), errf: filepath.Join(o.dir, fmt.Sprintf("oracle-%d.err", g))}
 		j.args = []string{"oracle", "-seed", fmt.Sprint(o.seed + uint64(g)), "-out", j.out}
 		for i := g; i < len(files); i += groups {
